@@ -113,7 +113,7 @@ func VH_C17_K1_KernelTwoUpdates() {
 	// second update
 	u2 := &vhUpdate{}
 	how := 1 + verifrt.Choose("growth", 2)
-	switch verifrt.Choose("second-update", 5) {
+	switch verifrt.Choose("second-update", 6) {
 	case 0: // same rounds, views grow; slots that did not change are absent
 		verifrt.Reach("K1-same-rounds-grow")
 		u2.voting = vhGrow(vote0, how)
@@ -143,6 +143,16 @@ func VH_C17_K1_KernelTwoUpdates() {
 		cm := vhGrow(vote0, 2)
 		cm.votes[vhPrecommit] = [3]int{0, 3, 0}
 		u2.committing = cm
+		u2.voting = &vhSpec{h: 6, r: 0, ph: verifrt.Choose("new-height-has-header", 2)}
+		u2.nextRound = &vhSpec{h: 6, r: 1}
+	case 5: // a slow reader: round (5,1) was nil-committed AND round (5,2) committed a block before
+		// the strategy read again; one update carries the nil-voted round, the committing view of
+		// the later round and the voting view of the next height
+		verifrt.Reach("K1-nil-round-and-commit-coalesced")
+		nv := vhGrow(vote0, 2)
+		nv.votes[vhPrecommit] = [3]int{3, 0, 0}
+		u2.nilVoted = nv
+		u2.committing = &vhSpec{h: 5, r: 2, ph: 1, votes: [2][3]int{{0, 3, 0}, {0, 3, 0}}}
 		u2.voting = &vhSpec{h: 6, r: 0, ph: verifrt.Choose("new-height-has-header", 2)}
 		u2.nextRound = &vhSpec{h: 6, r: 1}
 	case 4: // an older nil-committed round (5,0) is handed over on its own: the engine sends one
